@@ -102,6 +102,10 @@ def judge_message(ctx, t, attrs, via_reader=True, delta=0, key=None):
             ctx.check('track reader == message', got == m and len(back.tracks[0]) == 2,
                       known or f'reader-differs:{key}', case,
                       lambda: {'got': repr(got)[:200], 'want': repr(m)[:200]})
+            # meta payloads are not MIDI data bytes: clip=True must not touch them
+            got = MidiFile(file=io.BytesIO(one_event_file(b, delta)), clip=True).tracks[0][0]
+            ctx.check('track reader == message', got == m, known or f'reader-clip-differs:{key}', case,
+                      lambda: {'got': repr(got)[:200], 'want': repr(m)[:200]})
         except Exception as exc:
             ctx.fail('track reader == message', known or f'reader-raised:{key}', case,
                      f'{type(exc).__name__}: {exc}')
@@ -222,6 +226,33 @@ def history(ctx, seed):
         c = m.copy()
         ctx.check('history: bytes after assignment == reference', c.bytes() == ref, f'copy-encoding:{t}',
                   case, None)
+
+
+def other_charsets(ctx):
+    """Text meta messages under an explicitly selected charset (meta_charset context):
+    payload == text.encode(charset), decoding gives the text back."""
+    from mido.midifiles.meta import meta_charset
+    n = 0
+    for cs in ('utf-8', 'utf-16', 'utf-16-le', 'shift_jis', 'cp1252', 'utf-32'):
+        for text in ('', 'a', 'abc', 'caf\xe9', '\u3042' if cs in ('utf-8', 'utf-16', 'utf-16-le', 'shift_jis', 'utf-32') else 'z',
+                     'A' * 200):
+            case = {'kind': 'charset', 'charset': cs, 'text': text[:20]}
+            try:
+                payload = list(text.encode(cs))
+            except UnicodeError:
+                continue
+            try:
+                with meta_charset(cs):
+                    m = MetaMessage('text', text=text)
+                    b = m.bytes()
+                    d = MetaMessage.from_bytes(b)
+                ctx.check('bytes == FF type VLQ(len) payload (reference)', b == [0xFF, 1] + rmeta.vlq(len(payload)) + payload,
+                          f'charset-bytes:{cs}', case, b[:16])
+                ctx.check('from_bytes(bytes) == message', d == m, f'charset-from_bytes:{cs}', case, repr(d)[:100])
+            except Exception as exc:
+                ctx.fail('from_bytes(bytes) == message', f'charset:{type(exc).__name__}', case, f'{type(exc).__name__}: {exc}')
+            n += 1
+    return n
 
 
 def sequencer_specific(ctx):
@@ -365,6 +396,7 @@ def run(ctx):
     if sh == 0:
         n += rejections(ctx)
         n += sequencer_specific(ctx)
+        n += other_charsets(ctx)
         n += unknown_meta(ctx, rng)
         n += malformed_from_bytes(ctx)
         # unknown type names: logged only
@@ -376,6 +408,11 @@ def run(ctx):
                 ctx.extra('unknown_type_name_exceptions', {type(exc).__name__: 1})
     for j in range(60 if ctx.tier == 'quick' else 6000):
         history(ctx, f'{ctx.seed}:{sh}:h{j}')
+        n += 1
+    if sh == 1 % N:
+        from .. import customspec
+        customspec.scenario(ctx, 'track reader == message', 'from_bytes(bytes) == message',
+                            'bytes == FF type VLQ(len) payload (reference)')
         n += 1
     ctx.nontrivial(None, n)
     ctx.count('cases', n)
@@ -400,6 +437,8 @@ def replay(ctx, case):
         rejections(ctx)
     elif k == 'history':
         history(ctx, case['seed'])
+    elif k == 'charset':
+        other_charsets(ctx)
     elif k == 'seqspec':
         sequencer_specific(ctx)
     elif k == 'unknown':
